@@ -398,6 +398,21 @@ def run(ctx):
             ctx.violation("value/per_channel_noise", {"impl": float(v), "oracle": tot})
         else:
             ctx.trace_ok()
+        # the same noise given to the MODEL (its noise wins over the data's, which says something else here),
+        # keys in either order
+        for nd in (dict(noise), dict(reversed(list(noise.items())))):
+            ctx.case(("per-channel-noise", "model", tuple(nd)))
+            m2 = AlphaModel(s, alpha=0.9, noise_sd=nd, medium_index=1.33, illum_wavelen=wl, illum_polarization=(1, 0),
+                            theory=Mie())
+            try:
+                v2 = m2.lnlike({"n": 1.55}, update_metadata(data, noise_sd={"green": 0.5, "red": 0.5}))
+            except Exception as e:
+                ctx.violation("per_channel_noise/model_noise_exception", {"exc": repr(e)[:200]})
+                continue
+            if abs(v2 - tot) > 1e-9 * abs(tot):
+                ctx.violation("value/per_channel_noise_from_model", {"impl": float(v2), "oracle": tot})
+            else:
+                ctx.trace_ok()
     except Exception as e:
         ctx.violation("per_channel_noise/exception", {"exc": repr(e)})
     ctx.exhaustive = not quick
